@@ -116,7 +116,12 @@ func (t *XMPPTransport) StartTLS() error {
 }
 
 func (t *XMPPTransport) Ping() error {
-	n, err := t.conn.Write([]byte("\n"))
+	conn := t.conn
+	if conn == nil {
+		// Not connected (the last dial failed): like Close, Ping must not assume a connection.
+		return errors.New("could not write ping: no connection")
+	}
+	n, err := conn.Write([]byte("\n"))
 	if err != nil {
 		return err
 	}
